@@ -11,6 +11,7 @@ import JubakoModel.Lemmas.FuncsStats
 import JubakoModel.Lemmas.FuncsEntry
 import JubakoModel.Lemmas.FuncsParse
 import JubakoModel.Lemmas.FuncsOpen
+import JubakoModel.Lemmas.FuncsCluster
 
 namespace Jubako
 
@@ -332,5 +333,12 @@ theorem c02_directory_open_is_source_open (f : Bytes) :
 theorem c02_key_size_is_source_key_size (s : VStore) :
     s.keySize = if s.indexed then Generated.indexedStoreKeySize s.values.length else Generated.plainStoreKeySize s.dataSize :=
   gen_keySize s
+
+/-- **The tail of a value store — where every value starts and ends — is decoded as the source decodes it**:
+    `ValueStoreBuilder::parse` translated on every run equals `valueStoreTailDecode` on every byte string, the
+    offsets loop of the indexed kind included (up to the text of the panic of its bound assertion). -/
+theorem c02_value_store_tail_parser_is_source_parser (bs : Bytes) :
+    ((Generated.valueStoreBuilderParse bs).map' (fun r => r.1)).Same ((valueStoreTailDecode bs).map' vsTailToSrc) :=
+  gen_valueStoreBuilderParse bs
 
 end Jubako
